@@ -65,6 +65,33 @@ def kind_of(path):
     return parts[0] if parts else path
 
 
+def share_subtrees(x, pool=None):
+    """the object graph a YAML loader builds for anchors/aliases: every pair of EQUAL mappings / sequences becomes ONE shared object"""
+    pool = {} if pool is None else pool
+    if isinstance(x, dict):
+        y = {k: share_subtrees(v, pool) for k, v in x.items()}
+    elif isinstance(x, list):
+        y = [share_subtrees(v, pool) for v in x]
+    else:
+        return x
+    key = repr(y)
+    if len(key) > 12:
+        return pool.setdefault(key, y)
+    return y
+
+
+def count_shared(x, seen=None, hits=None):
+    seen, hits = ({} if seen is None else seen), ([0] if hits is None else hits)
+    if isinstance(x, (dict, list)):
+        if id(x) in seen:
+            hits[0] += 1
+            return hits[0]
+        seen[id(x)] = True
+        for v in (x.values() if isinstance(x, dict) else x):
+            count_shared(v, seen, hits)
+    return hits[0]
+
+
 def case_inventory(spec, cov, out):
     cfg = cfg_of(spec["src"], spec.get("episode", 0))
     try:
@@ -110,6 +137,24 @@ def case_inventory(spec, cov, out):
         a, b = copy.deepcopy(a), copy.deepcopy(b)
         _mask(a, path)
         _mask(b, path)
+    # the same scenario with every pair of equal blocks being ONE shared object (what a YAML loader returns for anchors / aliases, and
+    # what a script reusing one options dict produces) must build the same simulation
+    shared = share_subtrees(copy.deepcopy(cfg))
+    nshared = count_shared(shared)
+    if nshared:
+        cov.inc("scenarios_with_shared_blocks")
+        cov.inc("shared_block_references", nshared)
+        try:
+            blt2 = inventory.built(corpus.build_game(shared), cfg)
+        except Exception as e:
+            et, site = envrun.exc_site(e)
+            out.append(viol(f"shared-blocks-scenario-does-not-load/{et}@{site}", f"{spec['src']}: with equal blocks shared, from_config raised {et}: {str(e)[:200]}"))
+            return
+        d = snap.first_diff(blt, blt2)
+        if d:
+            path, v1, v2 = d
+            out.append(viol(f"built-differs-when-equal-blocks-are-shared/{kind_of(path)}", f"{spec['src']}: {path}: built {str(v1)[:160]!r} from the plain "
+                            f"scenario, {str(v2)[:160]!r} when equal blocks are one shared object", {"path": path}))
 
 
 def _mask(d, path):
@@ -135,7 +180,9 @@ def case_metamorphic(spec, cov, out):
     base = traj.run_child(base_spec, hashseed=0)
     if "error" in base:
         return {"harness_error": f"baseline failed: {base['error'][-300:]}"}
-    variants = [("reserialise-flow", reserialise(cfg, "flow")), ("reserialise-quoted", reserialise(cfg, "quoted"))]
+    shared = share_subtrees(copy.deepcopy(cfg))
+    cov.inc("shared_subtree_references", count_shared(shared))
+    variants = [("reserialise-flow", reserialise(cfg, "flow")), ("reserialise-quoted", reserialise(cfg, "quoted")), ("shared-subtrees", shared)]
     for i in range(spec["perms"]):
         variants.append((f"shuffle-keys-{i}", shuffle_keys(cfg, random.Random(spec["seed"] * 100 + i))))
     from concurrent.futures import ThreadPoolExecutor
